@@ -473,6 +473,10 @@ class Interp:
         if "v" in k:
             if "sv" in k:
                 return k["sv"]
+            if ty in ("f64", "f32"):
+                import struct as _st
+
+                return _st.unpack("<d", k["v"].to_bytes(8, "little"))[0] if ty == "f64" else _st.unpack("<f", k["v"].to_bytes(4, "little"))[0]
             return k["v"]
         if "ref" in k:
             inner = dict(k["ref"])
@@ -744,6 +748,8 @@ class Interp:
                     return wrap(~a, dty)
                 raise Unsupported("Not on %s" % dty)
             if rv[1] == "Neg":
+                if isinstance(a, float) or dty in ("f64", "f32"):
+                    return -float(a)
                 return wrap(-a, dty)
             if rv[1] == "PtrMetadata":
                 if isinstance(a, Slice):
@@ -762,6 +768,31 @@ class Interp:
                 if isinstance(v, Adt):  # enum to int
                     v = v.vi
                 return wrap(v, ty)
+            if kind == "IntToFloat":
+                fv = float(v)
+                if ty == "f32":
+                    import struct as _st
+
+                    fv = _st.unpack("<f", _st.pack("<f", fv))[0]
+                return fv
+            if kind == "FloatToInt":
+                if ty not in INT_TYPES:
+                    raise Unsupported("cast FloatToInt to %s" % ty)
+                bits, signed = INT_TYPES[ty]
+                lo, hi = (-(1 << (bits - 1)), (1 << (bits - 1)) - 1) if signed else (0, (1 << bits) - 1)
+                if v != v:
+                    return 0
+                if v == float("inf"):
+                    return hi
+                if v == float("-inf"):
+                    return lo
+                return max(lo, min(hi, int(v)))  # saturating, as `as` casts are
+            if kind == "FloatToFloat":
+                if ty == "f32":
+                    import struct as _st
+
+                    return _st.unpack("<f", _st.pack("<f", float(v)))[0]
+                return float(v)
             if kind == "Transmute":
                 return self.transmute(v, ty)
             if kind in ("PtrToPtr", "MutToConstPointer") or kind.startswith("PointerCoercion"):
@@ -835,6 +866,35 @@ class Interp:
             if isinstance(a, Ptr):
                 return Ptr(a.heap, a.off + b * a.esz, a.esz, a.helem)
             raise Unsupported("Offset on %r" % (a,))
+        if isinstance(a, float) or isinstance(b, float):
+            if not (isinstance(a, (int, float)) and isinstance(b, (int, float))):
+                raise Unsupported("binop %s on %r, %r" % (op, a, b))
+            a, b = float(a), float(b)
+            if op in ("Eq", "Ne", "Lt", "Le", "Gt", "Ge"):
+                return int({"Eq": a == b, "Ne": a != b, "Lt": a < b, "Le": a <= b, "Gt": a > b, "Ge": a >= b}[op])
+            import math as _m
+
+            if op == "Add":
+                return a + b
+            if op == "Sub":
+                return a - b
+            if op == "Mul":
+                try:
+                    return a * b
+                except OverflowError:
+                    return float("inf") if (a > 0) == (b > 0) else float("-inf")
+            if op == "Div":
+                if b == 0:
+                    if a == 0 or a != a:
+                        return float("nan")
+                    neg = (_m.copysign(1, a) < 0) != (_m.copysign(1, b) < 0)
+                    return float("-inf") if neg else float("inf")
+                return a / b
+            if op == "Rem":
+                if b == 0 or a in (float("inf"), float("-inf")):
+                    return float("nan")
+                return _m.fmod(a, b)
+            raise Unsupported("float binop %s" % op)
         if not isinstance(a, int) or not isinstance(b, int):
             raise Unsupported("binop %s on %r, %r" % (op, a, b))
         if op in ("Eq", "Ne", "Lt", "Le", "Gt", "Ge"):
@@ -893,8 +953,14 @@ class Interp:
         if fop[0] != "k" or "fn" not in fop[1]:
             # indirect call through a fn item / closure value
             fv = self.operand(fr, fop)
-            raise Unsupported("indirect call %r" % (fv,))
-        k = fop[1]
+            if isinstance(fv, Ref):
+                fv = self.read_path(fv.frame, fv.local, fv.path)
+            if isinstance(fv, tuple) and fv and fv[0] == "fnitem":
+                k = fv[1]
+            else:
+                raise Unsupported("indirect call %r" % (fv,))
+        else:
+            k = fop[1]
         name = self.P.norm(k.get("r", k["fn"]), False)
         fname = self.P.norm(k["fn"], False)
         res = self.dispatch(fr, name, fname, k, args, depth)
